@@ -46,7 +46,8 @@
      NoRespawn            - the recovery thread joins but does not spawn a replacement
      StopJoinsWorkers     - stop() joins the workers after sending its single Shutdown
      RequeueOnPanic       - a panicked task is sent again (retry)
-     ShutdownPerStop2     - stop() sends two Shutdown messages *)
+     ShutdownPerStop2     - stop() sends two Shutdown messages (breaks only the implementation-level
+                            invariant SingleShutdown, not the property) *)
 EXTENDS Naturals, Sequences, FiniteSets
 
 CONSTANTS N,          \* worker ids are 0..N-1 (Pool_Start(n) may start fewer: trace spec)
@@ -336,13 +337,16 @@ NoLossNoDup ==
         \/ t \notin inq /\ t \in held /\ ran[t] = (IF t \in running THEN 1 ELSE 0)
         \/ t \notin inq /\ t \notin held /\ ran[t] = 1
 
-\* "a task that panics affects nothing but itself": no worker leaves before stop/drop, and before
-\* the Sender is gone only the one that consumed the single Shutdown has left
+\* "a task that panics affects nothing but itself": while the pool is started no worker leaves, and a
+\* worker that died of a panic is on its way to being replaced
 NoPrematureExit ==
   /\ cpc = "started" => Gone = {}
-  /\ txAlive => Cardinality(Gone) <= 1
   /\ \A w \in Started : wpc[w] \in {"unwinding", "dead"} =>
         \/ rw = w \/ \E i \in 1 .. Len(recq) : recq[i] = w   \* its recovery is under way
+
+\* implementation-level (not demanded by the property): stop sends ONE Shutdown, so until the Sender
+\* is gone exactly the worker that consumed it has left; the others leave at drop
+SingleShutdown == txAlive => Cardinality(Gone) <= 1
 
 \* "the expected event can always arrive": nobody waits for a condition that cannot come true -
 \* checked as liveness below.
